@@ -39,6 +39,8 @@ pub struct Info {
     pub injected_error: Option<&'static str>,
     /// payload types dispatched by the task entry of a task + mesh workload (0: compute workload)
     pub mesh_payload_types: usize,
+    /// interpolators the vertex entry of a vertex + pixel workload provides (0: another kind of workload)
+    pub graphics_interpolators: usize,
 }
 
 #[derive(Clone, Debug)]
@@ -651,8 +653,35 @@ pub fn generate(rng: &mut Rng) -> Workload {
     // one workload in eight is a task + mesh pipeline instead (the Metal exporter refuses mesh intrinsics next to other pipelines):
     // the task entry reaches DispatchMesh with one to three payload types, directly and through a helper, so that the implicit
     // payload parameters are collected from a set with several members
-    let mesh_variant = rng.chance(1, 8);
-    if mesh_variant {
+    // ... and one in eight a vertex + pixel pipeline with three to six interpolators handed over as separate out parameters; a
+    // third of those are broken on purpose: the pixel entry reads one or two interpolators nobody provides (link diagnostics)
+    let graphics_variant = rng.chance(1, 8);
+    let mesh_variant = !graphics_variant && rng.chance(1, 7);
+    if graphics_variant {
+        const SEMANTICS: &[(&str, &str)] = &[("float2", "TEXCOORD"), ("float3", "NORMAL"), ("float4", "COLOR"), ("float", "FOG"), ("float3", "TANGENT"), ("float2", "LIGHTMAP"), ("float", "WETNESS"), ("float4", "BONES")];
+        let mut picked: Vec<(&str, &str)> = SEMANTICS.to_vec();
+        rng.shuffle(&mut picked);
+        let provided = 3 + rng.below(4);
+        let missing = if rng.chance(1, 3) { 1 + rng.below(2) } else { 0 };
+        let mut vs_params = String::from("uint vid : SV_VertexID, out float4 o_pos : SV_Position");
+        let mut vs_body = String::from("    o_pos = float4((float)vid, 0.0f, 0.0f, 1.0f);\n");
+        for (ty, sem) in &picked[..provided] {
+            vs_params.push_str(&format!(", out {} o_{} : {}", ty, sem.to_lowercase(), sem));
+            vs_body.push_str(&format!("    o_{} = ({})1;\n", sem.to_lowercase(), ty));
+        }
+        let mut ps_params: Vec<String> = picked[..provided].iter().filter(|_| rng.chance(2, 3)).map(|(ty, sem)| format!("{} i_{} : {}", ty, sem.to_lowercase(), sem)).collect();
+        for (ty, sem) in &picked[provided..provided + missing] {
+            ps_params.push(format!("{} i_{} : {}", ty, sem.to_lowercase(), sem));
+        }
+        rng.shuffle(&mut ps_params);
+        main_text.push_str(&format!("void VSMain({})\n{{\n{}}}\n\n", vs_params, vs_body));
+        main_text.push_str(&format!("float4 PSMain({}) : SV_Target0\n{{\n    return float4(0.0f, 0.0f, 0.0f, 1.0f);\n}}\n\n", ps_params.join(", ")));
+        main_text.push_str("Pipeline PG\n{\n    VertexShader = VSMain;\n    PixelShader = PSMain;\n}\n");
+        info.graphics_interpolators = provided;
+        if missing > 0 {
+            info.injected_error = Some("missing-interpolator");
+        }
+    } else if mesh_variant {
         let payloads = 1 + rng.below(3);
         for k in 0..payloads {
             let extra: String = (0..k).map(|j| format!("    uint extra{};\n", j)).collect();
@@ -694,10 +723,10 @@ pub fn generate(rng: &mut Rng) -> Workload {
         2 if two_pipelines => "named:P1".to_string(),
         _ => "all".to_string(),
     };
-    if mesh_variant {
+    if mesh_variant || graphics_variant {
         mode = "all".to_string();
     }
-    if rng.chance(1, 6) {
+    if info.injected_error.is_none() && rng.chance(1, 6) {
         let kind: &'static str = *rng.pick(&["undefined-identifier", "wrong-arity", "missing-include", "error-directive", "redefinition", "type-error", "unknown-pipeline", "unterminated-conditional", "layout-mismatch", "layout-mismatch", "duplicate-pipeline-properties", "duplicate-sampler-properties", "duplicate-pipeline-properties", "duplicate-sampler-properties"]);
         info.injected_error = Some(kind);
         match kind {
